@@ -225,6 +225,10 @@ Reason(e) ==
 \* returned normally is in canonical form (no high zero digit, NoSign exactly for zero)
 NonCanon(e) == e.out = "ok" /\ ~AllPostCanon(e)
 
+\* text rule, judged independently as well: whatever a text-producing call returns (even one that should have
+\* refused its radix) consists of ASCII bytes only - the String is built without a UTF-8 check
+NonAscii(e) == e.out = "ok" /\ e.op \in {"to_str_radix", "fmt"} /\ \E k \in 1..Len(e.ret.text) : e.ret.text[k] >= 128
+
 ----------------------------------------------------------------------------
 \* what a register holds after the event: the logged value, made canonical so
 \* that later rules are evaluated on well-formed operands even after a BAD event
@@ -242,6 +246,7 @@ Step ==
                           ELSE IF e.out = "ok" /\ k <= Len(e.post) THEN Adopt(e.post[k]) ELSE ZZero]
             /\ LET why == Reason(e) IN IF why = "ok" THEN TRUE ELSE PrintT(<<"BAD", l, e.op, e.form, why>>)
             /\ IF NonCanon(e) THEN PrintT(<<"BAD", l, e.op, e.form, "noncanon">>) ELSE TRUE
+            /\ IF NonAscii(e) THEN PrintT(<<"BAD", l, e.op, e.form, "nonascii">>) ELSE TRUE
     /\ l' = l + 1
 
 Spec == Init /\ [][Step]_vars
